@@ -3,6 +3,7 @@ package main
 import (
 	"bytes"
 	"fmt"
+	"io"
 	"strings"
 )
 
@@ -104,6 +105,59 @@ func c09Drive(args []string) int {
 		}
 		if fam <= 2 {
 			sum.sample(M{"item": it.Name, "golden": fpAll(gold, "full")})
+		}
+	}
+	// the format readers on byte sources that are plain io.Readers (no ReadByte, no buffering of their own): the public
+	// constructors take any io.Reader, schema.go merely happens to pass a *bufio.Reader.  golden = a bytes.Reader.
+	var src func() io.Reader
+	dext := directExtension(&src)
+	for _, s := range append(miniSamples(), generatedSamples()...) {
+		sch, err, p := newSchema(s.Schema, dext)
+		if err != nil || p != "" {
+			fmt.Println("error: schema rejected under the direct extension", s.Name, err, p)
+			return 3
+		}
+		in := s.Input
+		fam++
+		run := func(mk func() io.Reader) RunOutcome {
+			src = mk
+			return transcriptOf(sch, strings.NewReader(""), 100000)
+		}
+		gold := run(func() io.Reader { return bytes.NewReader(in) })
+		events = append(events, M{"ev": "golden", "tr": fam, "item": s.Name + " (direct)", "results": fpAll(gold, "full"), "len": len(in)})
+		variant := func(desc string, mk func() *chunkReader) {
+			o := run(func() io.Reader { return mk() })
+			events = append(events, M{"ev": "same", "tr": fam, "item": s.Name + " (direct)", "desc": desc, "results": fpAll(o, "full")})
+			sum.Traces++
+			sum.eval(true, M{"i": s.Name, "d": "direct " + desc})
+		}
+		variant("whole", func() *chunkReader { return &chunkReader{data: in, failAt: -1} })
+		variant("whole+eof-with-data", func() *chunkReader { return &chunkReader{data: in, eofWith: true, failAt: -1} })
+		variant("1-byte", func() *chunkReader { return &chunkReader{data: in, sizes: []int{1}, failAt: -1} })
+		for _, cs := range []int{2, 7, 64, 509, 4096} {
+			cs := cs
+			variant(fmt.Sprintf("fixed-chunks-%d", cs), func() *chunkReader { return &chunkReader{data: in, sizes: []int{cs}, failAt: -1} })
+		}
+		var splits []int
+		if len(in) <= 300 {
+			for k := 1; k < len(in); k++ {
+				splits = append(splits, k)
+			}
+		} else {
+			for k := 0; k < 40; k++ {
+				splits = append(splits, 1+r.Intn(len(in)-1))
+			}
+		}
+		for _, k := range splits {
+			k := k
+			variant(fmt.Sprintf("split@%d", k), func() *chunkReader { return &chunkReader{data: in, sizes: []int{k, len(in)}, failAt: -1} })
+		}
+		for k := 0; k < nRandom/2; k++ {
+			var sizes []int
+			for j := 0; j < 7; j++ {
+				sizes = append(sizes, []int{0, 1, 2, 3, 5, 8, 13, 64, 127, 128, 129, 1000, 4095, 4096, 4097}[r.Intn(15)])
+			}
+			variant(fmt.Sprintf("random%v", sizes), func() *chunkReader { return &chunkReader{data: in, sizes: sizes, failAt: -1} })
 		}
 	}
 	mustWriteNDJSON(outPath, events)
